@@ -259,6 +259,40 @@ fn main() {
     gv::quiet_panics();
     let args = Args::parse();
     let mut out = Out::new(&args.out);
+    if let Some(rp) = &args.replay {
+        // re-run exactly the recorded case and show what the implementation does
+        let v: serde_json::Value =
+            serde_json::from_str(&std::fs::read_to_string(rp).unwrap()).unwrap();
+        let case = &v["case"];
+        if let Some(req) = case["request"].as_str() {
+            let ops: Vec<usize> = req
+                .split("(op \"")
+                .skip(1)
+                .filter_map(|part| {
+                    let name = part.split('"').next().unwrap_or("");
+                    OPS.iter().position(|o| o.0 == name)
+                })
+                .collect();
+            println!("replaying chain {:?}", ops.iter().map(|i| OPS[*i].0).collect::<Vec<_>>());
+            one_chain(&mut out, &ops);
+        }
+        if let Some(text) = case["text"].as_str() {
+            println!("replaying text:\n{}", text);
+            match gv::catch(|| textlevel::parse_reparse(text)) {
+                Ok(Ok(_)) => println!("=> parsed and re-balanced"),
+                Ok(Err(e)) => println!("=> error {:?}", e),
+                Err(p) => println!("=> PANIC {}", p),
+            }
+        }
+        if let Some(text) = case["restyled"].as_str() {
+            println!("replaying restyled text:\n{}", text);
+            println!("=> parses: {}", textlevel::parse_only(text).is_ok());
+        }
+        out.finish();
+        let imp = std::fs::read_to_string(args.out.join("impl.txt")).unwrap_or_default();
+        print!("{}", imp);
+        return;
+    }
     let mut rng = gv::rng::Rng::new(args.seed, 8);
     // Exhaustive over the six defined operators.
     let max_exh = if args.thorough() { 6 } else { 5 };
